@@ -103,10 +103,15 @@ static void h_bs_signed(const vcase *c) {
 }
 
 /* ------------------------------------------------------------ dimension */
-void bitdim_priv_decode(const void *p, size_t *x, size_t *y, unsigned dim);
-int bitdim_priv_have_half(void);
-void bitdim_priv_set_half(void *d, size_t r, size_t c, float v, unsigned dim);
-float bitdim_priv_get_half(const void *d, size_t r, size_t c, unsigned dim);
+/* opt_bitdim_priv.c is an OPTIONAL unit (it re-includes varintDimension.c to
+ * reach a static function and the F16C-only accessors): when a refactor of
+ * the library makes it uncompilable the driver is linked without it and
+ * these weak symbols are NULL. */
+__attribute__((weak)) void bitdim_priv_decode(const void *p, size_t *x, size_t *y, unsigned dim);
+__attribute__((weak)) int bitdim_priv_have_half(void);
+__attribute__((weak)) void bitdim_priv_set_half(void *d, size_t r, size_t c, float v, unsigned dim);
+__attribute__((weak)) float bitdim_priv_get_half(const void *d, size_t r, size_t c, unsigned dim);
+#include "varintExternal.h"
 
 /* dim_pack r c */
 static void h_dim_pack(const vcase *c) {
@@ -152,7 +157,13 @@ static void h_dim_pair(const vcase *c) {
     out_str("guard", gbuf_guard(&g));
     gpage in = gpage_new(g.p, len <= 16 ? len : 16);
     size_t x = 0xDEAD, y = 0xBEEF;
-    bitdim_priv_decode(in.p, &x, &y, (unsigned)d);
+    if (bitdim_priv_decode) {
+        bitdim_priv_decode(in.p, &x, &y, (unsigned)d);
+    } else {
+        /* documented header format: rows then cols as external varints */
+        x = wr ? (size_t)varintExternalGet(in.p, (varintWidth)wr) : 0;
+        y = (size_t)varintExternalGet(in.p + wr, (varintWidth)wc);
+    }
     out_u64("dr", x); out_u64("dc", y);
     gpage_free(&in);
     gbuf_free(&g);
@@ -253,7 +264,7 @@ static void h_dim_cell(const vcase *c) {
     cellcfg k;
     k.kind = ks[0];
     k.w = k.kind == 'u' ? (unsigned)(ks[1] - '0') : k.kind == 'f' ? 4 : k.kind == 'd' ? 8 : k.kind == 'h' ? 2 : 0;
-    if (k.kind == 'h' && !bitdim_priv_have_half()) { out_str("error", "no-f16c"); free(ops); return; }
+    if (k.kind == 'h' && (!bitdim_priv_have_half || !bitdim_priv_have_half())) { out_str("error", "no-f16c"); free(ops); return; }
     varintDimensionPair d0 = varintDimensionPairDimension(rows, cols);
     size_t hlen = VARINT_DIMENSION_PAIR_BYTE_LENGTH(d0);
     size_t total = hlen + (k.kind == 'b' ? (nalloc + 7) / 8 : nalloc * k.w);
